@@ -70,6 +70,21 @@ func (p *Prog) methodsOf(named *types.Named) map[string]*ssa.Function {
 			m[named.Method(i).Name()] = f
 		}
 	}
+	// methods promoted from embedded structs: the declared method of the embedded type stands for it
+	ms := types.NewMethodSet(types.NewPointer(named))
+	for i := 0; i < ms.Len(); i++ {
+		sel := ms.At(i)
+		fo, ok := sel.Obj().(*types.Func)
+		if !ok || m[fo.Name()] != nil || len(sel.Index()) < 2 {
+			continue
+		}
+		if o := fo.Origin(); o != nil {
+			fo = o
+		}
+		if f := p.SSA.FuncValue(fo); f != nil && f.Blocks != nil {
+			m[fo.Name()] = f
+		}
+	}
 	return m
 }
 
